@@ -3,6 +3,7 @@ package rules
 import (
 	"go/ast"
 	"go/types"
+	"strings"
 
 	"verif/internal/core"
 	"verif/internal/flow"
@@ -162,10 +163,43 @@ func c10Attempt(c *core.Ctx) {
 		}
 		st.Set("ev:deadline:"+key, deadline)
 	}
+	// ctxOfCall: the status of the context a call derives from its context-typed argument
+	ctxOfCall := func(st *flow.State, call *ast.CallExpr) (derived bool, deadline flow.Val) {
+		var src *ast.Ident
+		for _, arg := range call.Args {
+			if tv, ok := f.Info.Types[arg]; ok && c10isCtxType(tv.Type) {
+				src = c10ident(arg)
+				break
+			}
+		}
+		if !good(st, src) {
+			return false, flow.Unknown
+		}
+		deadline = st.Get("ev:deadline:" + lf.Render(src))
+		switch calleeFull(f, call) {
+		case "context.WithTimeout", "context.WithDeadline":
+			if len(call.Args) == 2 && c10mentions(f, c10alias(f, bodyOf(call), call.Args[1]), timeoutF) {
+				deadline = flow.True
+			}
+		}
+		return true, deadline
+	}
 	res := analyze(c, lf, flow.Config{
 		NoHavoc: true,
 		Inline: inlineIf(lf, func(callee *types.Func, g *flow.Func) bool {
-			return reachContains(g, 5, target)
+			// helpers on the way to the send / the request construction, and helpers that derive the
+			// attempt's context (sp.attemptContext(parent))
+			return reachContains(g, 5, target) || reachContains(g, 2, func(h *flow.Func, n ast.Node) bool {
+				call, ok := n.(*ast.CallExpr)
+				if !ok {
+					return false
+				}
+				switch calleeFull(h, call) {
+				case "context.WithTimeout", "context.WithDeadline":
+					return true
+				}
+				return false
+			})
 		}),
 		OnInline: func(st *flow.State, ev *flow.InlineEvent) {
 			if ev.Enter {
@@ -189,7 +223,23 @@ func c10Attempt(c *core.Ctx) {
 			// a context returned by a helper (ctx, cancel := sp.withTimeout(stdctx)) keeps its status
 			// under the name it is assigned to
 			as, ok := a.pm[ev.Call].(*ast.AssignStmt)
-			if !ok || len(as.Rhs) != 1 || len(as.Lhs) != len(ev.Results) {
+			if !ok || len(as.Rhs) != 1 {
+				return
+			}
+			// `return context.WithTimeout(parent, sp.timeout)`: the helper hands the derived context (and
+			// its cancel function) straight on
+			if ev.Return != nil && len(ev.Return.Results) == 1 && len(as.Lhs) == 2 {
+				if call, ok := ast.Unparen(ev.Return.Results[0]).(*ast.CallExpr); ok {
+					if lid := c10ident(as.Lhs[0]); lid != nil && lid.Name != "_" {
+						if o := c10obj(f, lid); o != nil && c10isCtxType(o.Type()) {
+							derived, dl := ctxOfCall(st, call)
+							setCtx(st, lid, derived, dl)
+						}
+					}
+				}
+				return
+			}
+			if len(as.Lhs) != len(ev.Results) {
 				return
 			}
 			for i, l := range as.Lhs {
@@ -253,24 +303,7 @@ func c10Attempt(c *core.Ctx) {
 			derived, deadline := false, flow.Unknown
 			if len(as.Rhs) == 1 {
 				if call, ok := ast.Unparen(as.Rhs[0]).(*ast.CallExpr); ok && len(call.Args) >= 1 {
-					// the parent context: the context-typed argument (first one)
-					var src *ast.Ident
-					for _, arg := range call.Args {
-						if tv, ok := f.Info.Types[arg]; ok && c10isCtxType(tv.Type) {
-							src = c10ident(arg)
-							break
-						}
-					}
-					if good(st, src) {
-						derived = true
-						deadline = st.Get("ev:deadline:" + lf.Render(src))
-						switch calleeFull(f, call) {
-						case "context.WithTimeout", "context.WithDeadline":
-							if len(call.Args) == 2 && c10mentions(f, c10alias(f, bodyOf(call), call.Args[1]), timeoutF) {
-								deadline = flow.True
-							}
-						}
-					}
+					derived, deadline = ctxOfCall(st, call)
 				} else if src := c10ident(as.Rhs[0]); src != nil && good(st, src) {
 					derived = true
 					deadline = st.Get("ev:deadline:" + lf.Render(src))
@@ -565,6 +598,8 @@ func c10DoHandle(c *core.Ctx) {
 	}
 	var reads []*ast.CallExpr
 	readErrKey := map[*ast.CallExpr]string{}
+	readFailWhen := map[string]flow.Val{} // the value of the outcome fact that means "the read failed"
+	var undecidedRead ast.Node
 	unkept := false
 	for _, g := range a.fs {
 		if !hasSpeLit(g) {
@@ -585,7 +620,21 @@ func c10DoHandle(c *core.Ctx) {
 			reads = append(reads, call)
 			if as, ok := pm[call].(*ast.AssignStmt); ok && len(as.Lhs) == 1 && len(as.Rhs) == 1 {
 				if id := c10ident(as.Lhs[0]); id != nil && id.Name != "_" {
+					if o := c10obj(f, id); o != nil {
+						if bt, isBasic := o.Type().Underlying().(*types.Basic); isBasic && bt.Info()&types.IsBoolean != 0 {
+							// a bool outcome (`built := sp.buildResponse(spCtx)`): which value means failure is
+							// read from the callee: the constant it returns under an `err != nil` test
+							if failVal, ok := c10boolFailure(f, fd); ok {
+								readErrKey[call] = f.VarKey(id)
+								readFailWhen[f.VarKey(id)] = failVal
+								continue
+							}
+							undecidedRead = call
+							continue
+						}
+					}
 					readErrKey[call] = f.NilKey(id)
+					readFailWhen[f.NilKey(id)] = flow.False // err == nil is false
 					continue
 				}
 			}
@@ -676,6 +725,15 @@ func c10DoHandle(c *core.Ctx) {
 	classifyCtx = func(e ast.Expr, g *flow.Func, depth int) (bool, string) {
 		if e == nil || depth > 3 {
 			return false, "?"
+		}
+		// a context variable of the sending function derived from its own context parameter (the
+		// context the request is created with), before any alias resolution
+		if id := c10ident(e); id != nil && g == sendFn {
+			for i := 0; i < 4; i++ {
+				if p := c10paramObj(f, sendFn.Type, i); p != nil && c10isCtxType(p.Type()) && c10ctxDerived(f, sendFn.Body, id, p) {
+					return true, ""
+				}
+			}
 		}
 		recv := c10alias(f, g.Body, e)
 		switch r := ast.Unparen(recv).(type) {
@@ -845,6 +903,79 @@ func c10DoHandle(c *core.Ctx) {
 		return flow.Unknown
 	}
 
+	// parseLit reads a constant pool error literal {code, result} (positional or keyed)
+	parseLit := func(e ast.Expr) (code, result string, ok bool) {
+		cl, isLit := ast.Unparen(e).(*ast.CompositeLit)
+		if !isLit {
+			return
+		}
+		if tv, has := f.Info.Types[cl]; !has || !types.Identical(tv.Type, speT) || len(cl.Elts) != 2 {
+			return
+		}
+		st := speT.Underlying().(*types.Struct)
+		var ce, re ast.Expr
+		for i, el := range cl.Elts {
+			var fld *types.Var
+			val := el
+			if kv, isKV := el.(*ast.KeyValueExpr); isKV {
+				fld, _ = f.Info.Uses[c10ident(kv.Key)].(*types.Var)
+				val = kv.Value
+			} else {
+				fld = st.Field(i)
+			}
+			switch fld {
+			case ro.codeF:
+				ce = val
+			case ro.resultF:
+				re = val
+			}
+		}
+		if ce != nil && re != nil {
+			if v, isInt := c10constInt(f, ce); isInt {
+				if str, isStr := c10constString(f, re); isStr {
+					return sprintf("%d", v), str, true
+				}
+			}
+		}
+		return
+	}
+	// litEvent: a local that was last assigned a constant pool error on this path
+	// (failure := serverPoolError{500, ..}; if timedOut { failure = serverPoolError{408, ..} }; return failure)
+	noteLit := func(st *flow.State, l ast.Expr, r ast.Expr) {
+		id := c10ident(l)
+		if id == nil || id.Name == "_" {
+			return
+		}
+		o := c10obj(f, id)
+		if o == nil || !types.Identical(o.Type(), speT) {
+			return
+		}
+		pre := "ev:lit:" + f.Render(id) + "|"
+		for _, kv := range st.Facts() {
+			if strings.HasPrefix(kv, pre) {
+				st.Set(strings.TrimSuffix(kv, "=T"), flow.Unknown)
+			}
+		}
+		if code, result, ok := parseLit(r); ok {
+			st.Set(pre+code+"|"+result, flow.True)
+		}
+	}
+	litOfVar := func(st *flow.State, e ast.Expr) (code, result string, ok bool) {
+		id := c10ident(e)
+		if id == nil {
+			return
+		}
+		pre := "ev:lit:" + f.Render(id) + "|"
+		for _, kv := range st.Facts() {
+			if strings.HasPrefix(kv, pre) && strings.HasSuffix(kv, "=T") {
+				parts := strings.SplitN(strings.TrimSuffix(strings.TrimPrefix(kv, pre), "=T"), "|", 2)
+				if len(parts) == 2 {
+					return parts[0], parts[1], true
+				}
+			}
+		}
+		return
+	}
 	run := func(root *flow.Func) *flow.Result {
 		return analyze(c, root, flow.Config{
 			NoHavoc: true,
@@ -865,6 +996,20 @@ func c10DoHandle(c *core.Ctx) {
 				}
 			},
 			OnNode: func(st *flow.State, n ast.Node) {
+				switch x := n.(type) {
+				case *ast.AssignStmt:
+					if len(x.Lhs) == len(x.Rhs) {
+						for i := range x.Lhs {
+							noteLit(st, x.Lhs[i], x.Rhs[i])
+						}
+					}
+				case *ast.ValueSpec:
+					if len(x.Names) == len(x.Values) {
+						for i := range x.Names {
+							noteLit(st, x.Names[i], x.Values[i])
+						}
+					}
+				}
 				// the send error variable is re-used for something else before having been tested
 				if as, ok := n.(*ast.AssignStmt); ok && st.Is("ev:sent", flow.True) && st.Get("ev:sendfailed") == flow.Unknown {
 					for _, l := range as.Lhs {
@@ -896,11 +1041,8 @@ func c10DoHandle(c *core.Ctx) {
 						if !st.Is("ev:readkey:"+k, flow.True) {
 							continue
 						}
-						switch st.Get(k) {
-						case flow.True:
-							st.Set("ev:readfailed", flow.False)
-						case flow.False:
-							st.Set("ev:readfailed", flow.True)
+						if v := st.Get(k); v != flow.Unknown {
+							st.Set("ev:readfailed", map[bool]flow.Val{true: flow.True, false: flow.False}[v == readFailWhen[k]])
 						}
 					}
 				}
@@ -917,39 +1059,15 @@ func c10DoHandle(c *core.Ctx) {
 			errExpr = ret.Results[len(ret.Results)-1]
 		}
 		for _, r := range ret.Results {
-			cl, ok := ast.Unparen(r).(*ast.CompositeLit)
-			if !ok {
-				continue
+			if c, rs, ok := parseLit(r); ok {
+				return c, rs, true, r
 			}
-			if tv, ok := f.Info.Types[cl]; !ok || !types.Identical(tv.Type, speT) || len(cl.Elts) != 2 {
-				continue
+			if c, rs, ok := litOfVar(ex.State, r); ok {
+				return c, rs, true, r
 			}
-			st := speT.Underlying().(*types.Struct)
-			var ce, re ast.Expr
-			for i, el := range cl.Elts {
-				var fld *types.Var
-				val := el
-				if kv, ok := el.(*ast.KeyValueExpr); ok {
-					fld, _ = f.Info.Uses[c10ident(kv.Key)].(*types.Var)
-					val = kv.Value
-				} else {
-					fld = st.Field(i)
-				}
-				switch fld {
-				case ro.codeF:
-					ce = val
-				case ro.resultF:
-					re = val
-				}
+			if _, isLit := ast.Unparen(r).(*ast.CompositeLit); isLit {
+				errExpr = r
 			}
-			if ce != nil && re != nil {
-				if v, ok := c10constInt(f, ce); ok {
-					if s, ok := c10constString(f, re); ok {
-						return sprintf("%d", v), s, true, r
-					}
-				}
-			}
-			errExpr = r
 		}
 		return
 	}
@@ -1076,6 +1194,10 @@ func c10DoHandle(c *core.Ctx) {
 	}
 	readFn := a.fnOf(reads[0])
 	rcons := c10funcCons(readFn)
+	if undecidedRead != nil {
+		c10shape(c, "R-C10-5", rcons+"|response-read failure under the deadline", pos(c, undecidedRead), "the response read reports its outcome as a bool whose meaning cannot be read from the callee")
+		return
+	}
 	if unkept {
 		c.Violate("R-C10-5", rcons+"|response-read failure under the deadline", pos(c, reads[0]), "the error of the response read is not kept: a response whose body could not be read in time is passed on as success")
 		return
@@ -1115,4 +1237,48 @@ func c10DoHandle(c *core.Ctx) {
 			}
 			return append([]string{"return at " + pos(c, badRead.Ret())}, witness(badRead.State)...)
 		}()...)
+}
+
+// c10boolFailure tells which constant a bool-returning function returns when an error test
+// (`err != nil`) succeeded: the value that means failure. ok is false when the returns under error
+// tests do not agree or none is found.
+func c10boolFailure(f *flow.Func, fd *ast.FuncDecl) (flow.Val, bool) {
+	val, found, conflict := flow.Unknown, false, false
+	ast.Inspect(fd.Body, func(n ast.Node) bool {
+		ifs, ok := n.(*ast.IfStmt)
+		if !ok {
+			return true
+		}
+		be, ok := ast.Unparen(ifs.Cond).(*ast.BinaryExpr)
+		if !ok || be.Op.String() != "!=" {
+			return true
+		}
+		isErrNil := func(a, b ast.Expr) bool {
+			tv, ok := f.Info.Types[a]
+			return ok && tv.Type != nil && types.Identical(tv.Type, types.Universe.Lookup("error").Type()) && f.Info.Types[b].IsNil()
+		}
+		if !isErrNil(be.X, be.Y) && !isErrNil(be.Y, be.X) {
+			return true
+		}
+		ast.Inspect(ifs.Body, func(m ast.Node) bool {
+			if _, isLit := m.(*ast.FuncLit); isLit {
+				return false
+			}
+			if r, ok := m.(*ast.ReturnStmt); ok && len(r.Results) == 1 {
+				if tv, ok := f.Info.Types[r.Results[0]]; ok && tv.Value != nil {
+					v := flow.False
+					if tv.Value.ExactString() == "true" {
+						v = flow.True
+					}
+					if found && v != val {
+						conflict = true
+					}
+					val, found = v, true
+				}
+			}
+			return true
+		})
+		return true
+	})
+	return val, found && !conflict
 }
